@@ -52,6 +52,10 @@ def index(ex, base, idx, line):
         for d, (_, i) in enumerate(items):
             it = ex.norm_index(base, d, i, line)
             t = tm.select(t, it)
+        if getattr(base, 'nan', None) is not None and base.ndim == 1 and not ex.in_spec:
+            m = tm.select(base.nan, it)
+            if ex.branch(m):
+                return float('nan')
         return t
     # partial indexing / slices -> view
     return make_view(ex, base, items, line)
@@ -186,6 +190,18 @@ def store(ex, base, idx, v, line):
         return
     items = _index_list(ex, idx)
     if all(k == 'i' for (k, *_) in items) and len(items) == base.ndim:
+        isnan = isinstance(v, float) and v != v
+        if isnan or getattr(root, 'nan', None) is not None:
+            if base.ndim != 1 or isinstance(base, ViewArr):
+                if isnan:
+                    raise Unsupported('NaN stored into a view / rank>1 array (line %s)' % line)
+            else:
+                it0 = to_term(items[0][1])
+                if root.nan is None:
+                    root.nan = tm.constarr(tm.ArraySort(INT, BOOL), tm.FALSE)
+                root.nan = tm.store(root.nan, it0, tm.mk_bool(isnan))
+                if isnan:
+                    v = ex.fresh('nanval', REAL)
         v = coerce_elem(ex, base, v, line)
         if isinstance(base, ViewArr):
             base.store_at(ex, [i for (_, i) in items], v, line)
@@ -284,6 +300,7 @@ def fresh_like(ex, a, name=None):
             refcls=a.refcls)
     if a.objs is not None:
         n.objs = list(a.objs)
+    n.nan = getattr(a, 'nan', None)
     return n
 
 
@@ -325,6 +342,19 @@ def binop(ex, op, a, b, line):
 
 
 def map1(ex, a, fn):
+    # constant arrays of any rank: apply to the constant
+    t = a.term
+    depth = 0
+    while t is not None and t.op == 'constarr':
+        t = t.args[0]
+        depth += 1
+    if depth == a.ndim and t is not None and a.ndim >= 1:
+        v = fn(t)
+        s = v.sort
+        for _ in a.shape:
+            s = tm.ArraySort(INT, s)
+            v = tm.constarr(s, v)
+        return Arr(v, list(a.shape), a.elem, 'ndarray', a.name + '_m')
     if a.ndim != 1:
         raise Unsupported('elementwise op on rank>1 arrays')
     return pointwise(ex, a.shape[0], 'ew', a.elem, lambda j: fn(tm.select(a.term, j)))
